@@ -280,7 +280,26 @@ func runC08(c *Ctx) error {
 			if len(chain) > 0 {
 				idx = c.Rng.IntN(len(chain))
 			}
-			switch c.Rng.IntN(22) {
+			switch c.Rng.IntN(24) {
+			case 22, 23:
+				// the delivering peer announces itself but attaches a (genuinely signed) hop record of another
+				// router: the outermost signer is not the delivering peer
+				{
+					b, err := c08NewAnn(deliver.id, a.msg.Stub, a.msg.ReturnLabel, exp)
+					if err != nil {
+						return err
+					}
+					a = b
+					origin = deliver.id
+					other := pickID()
+					chain = []c08Rec{{pub: other.PublicAddress, delay: 9, fl: 33, rl: 44, signKey: other.PrivateKey, ctx: a.ctx, flipAt: -1}}
+					if c.Rng.IntN(2) == 0 {
+						third := pickID()
+						chain = append(chain, c08Rec{pub: third.PublicAddress, delay: 4, fl: 5, rl: 6, signKey: third.PrivateKey, ctx: a.ctx, flipAt: -1})
+					}
+					n = len(chain)
+					op, forged = "origin-delivers-foreign-chain", true
+				}
 			case 0:
 				if n > 0 {
 					chain[idx].signKey = nil
